@@ -264,6 +264,31 @@ def gen_tree(rnd, maxdepth):
         g.facts[rid][0] = True
     if rnd.random() < 0.03:
         g.facts[rid][1] = True
+    if rnd.random() < 0.35:
+        # a non-mod-rs file whose modules are nested INLINE for 2..3 levels before an out-of-line child: the directory of
+        # the child is a/<k1>/<k2>/.., the file's own name `a` entering the path exactly once
+        cdir = root[:-1]
+        n = g.fresh(cdir)
+        fid = g.new_file(cdir + [R(n)]) if n is not None else None
+        if fid is not None:
+            nd = cdir + [D(n)]
+            ks = []
+            for _ in range(rnd.randint(2, 3)):
+                k = rnd.randint(0, 4)
+                ks.append(k)
+                nd = nd + [D(k)]
+            leaves = []
+            for m in rnd.sample(range(0, 5), rnd.randint(1, 2)):
+                lf = g.new_file(nd + [R(m)])
+                if lf is not None:
+                    g.child(lf, nd, m, 3)
+                    leaves.append(["decl", m, A()])
+            g.add_dirs(nd + [0])
+            body = leaves
+            for k in reversed(ks):
+                body = [["inline", k, A(), body + ([["other"]] if rnd.random() < 0.3 else [])]]
+            g.asts[fid] = body
+            g.asts[rid].append(["decl", n, A()])
     nd = g.decoys()
     x = rnd.random()
     mode = "stdin" if x < 0.06 else ("abs" if x < 0.5 else "rel")
